@@ -23,7 +23,7 @@ impl Property for C05 {
         "C05"
     }
     fn rule(&self) -> String {
-        "libraries of 1-6 notes over root and sub-directories with links in paragraphs, headings, list items, nested items, emphasis, quotes, tables and as block references, many-to-one, to self, to missing notes and to external URLs, in every spelling; oracle: for every note and missing target the set of (linking note, first line of the linking block) computed from an independent scan with own path algebra equals the set reported by get_block_references_to and by get_inline_references_to (both directions); non-trivial = a link crossing directories or >= 2 links to one target from different block kinds".into()
+        "(each library is judged twice: imported, and reached through updates of every note from another text) libraries of 1-6 notes over root and sub-directories with links in paragraphs, headings, list items, nested items, emphasis, quotes, tables and as block references, many-to-one, to self, to missing notes and to external URLs, in every spelling; oracle: for every note and missing target the set of (linking note, first line of the linking block) computed from an independent scan with own path algebra equals the set reported by get_block_references_to and by get_inline_references_to (both directions); non-trivial = a link crossing directories or >= 2 links to one target from different block kinds".into()
     }
     fn assumptions(&self) -> Vec<String> {
         vec!["LF line endings (positions under CRLF are C13's business)".into(), "images are not links".into()]
@@ -47,8 +47,26 @@ impl Property for C05 {
                 return Verdict::Discard(r);
             }
         }
-        let g = Graph::import(&api::to_state(&lib), api::opts(&case.ext));
+        let imported = Graph::import(&api::to_state(&lib), api::opts(&case.ext));
+        // second door: the same library reached through edits, as a server reaches it - every note
+        // first holds the text of its neighbour, then is updated to its own text (last note first),
+        // and the first note is sent once more unchanged
+        let keys: Vec<String> = lib.keys().cloned().collect();
+        let mut shifted = api::Lib::new();
+        for (i, k) in keys.iter().enumerate() {
+            shifted.insert(k.clone(), lib[&keys[(i + 1) % keys.len()]].clone());
+        }
+        let mut db = liwe::database::Database::new(api::to_state(&shifted), true, api::opts(&case.ext));
+        for k in keys.iter().rev() {
+            db.update_document(Key::from_file_name(k), lib[k].clone());
+        }
+        if let Some(k) = keys.first() {
+            db.update_document(Key::from_file_name(k), lib[k].clone());
+        }
+        stats.class("door:import");
+        stats.class("door:edited-into-place");
         let occ = model::link_occurrences(&lib);
+        for (door, g) in [("", &imported), ("history|", db.graph())] {
         let (eb, ei) = model::backlinks(&occ);
         let mut targets: BTreeSet<String> = lib.keys().cloned().collect();
         targets.extend(eb.keys().cloned());
@@ -60,7 +78,7 @@ impl Property for C05 {
                 ("block", eb.get(t).unwrap_or(&empty), g.get_block_references_to(&key)),
                 ("inline", ei.get(t).unwrap_or(&empty), g.get_inline_references_to(&key)),
             ] {
-                let got: BTreeSet<(String, Option<usize>)> = got_ids.iter().map(|id| node_place(&g, *id)).collect();
+                let got: BTreeSet<(String, Option<usize>)> = got_ids.iter().map(|id| node_place(g, *id)).collect();
                 let exp: BTreeSet<(String, Option<usize>)> = expected.iter().map(|(o, l)| (o.clone(), Some(*l))).collect();
                 if got != exp {
                     let missing: Vec<_> = exp.difference(&got).collect();
@@ -72,14 +90,19 @@ impl Property for C05 {
                     } else {
                         "extra"
                     };
-                    let mut detail = format!("{} references to {:?}: missing {:?}, unexpected {:?}\n", name, t, missing, extra);
+                    let mut detail = format!("{}{} references to {:?}: missing {:?}, unexpected {:?}\n", if door.is_empty() { "" } else { "(library reached through updates) " }, name, t, missing, extra);
                     for (k, v) in &lib {
                         detail.push_str(&format!("--- {}\n{}\n", k, v));
                     }
-                    return Verdict::fail(format!("c05|{}:{}", name, kind), detail);
+                    return Verdict::fail(format!("c05|{}{}:{}", door, name, kind), detail);
                 }
             }
         }
+        }
+        let (eb, ei) = model::backlinks(&occ);
+        let mut targets: BTreeSet<String> = lib.keys().cloned().collect();
+        targets.extend(eb.keys().cloned());
+        targets.extend(ei.keys().cloned());
         let cross_dir = occ.iter().any(|o| crate::pathalg::dir_of(&o.owner) != crate::pathalg::dir_of(&o.target));
         let multi = targets.iter().any(|t| eb.get(t).map(|s| s.len()).unwrap_or(0) + ei.get(t).map(|s| s.len()).unwrap_or(0) >= 2);
         stats.class_n("links", occ.len() as u64);
